@@ -25,7 +25,7 @@ ASSUMPTIONS = ['vf/models/x691.py is X.691 (gate: the 8 Annex A vectors must pas
                'declared undecided (counted, not compared): aligned variable-size strings of length 0, aligned known-multiplier strings with '
                'aub*b <= 16 (variable) or = 16 (fixed), > 64 additions aligned, structured DEFAULT equal to its default, DEFAULT-valued additions, '
                'time types, SIZE (MIN..MAX)']
-REPORT = ['modules', 'evaluations', 'byte_comparisons', 'decode_of_model_bytes', 'model_undecided', 'declared_unsupported',
+REPORT = ['modules', 'modules_with_many_additions', 'evaluations', 'byte_comparisons', 'decode_of_model_bytes', 'model_undecided', 'declared_unsupported',
           'annex_a_vectors_passed', 'not_accepted_by_checks', 'carved_out']
 FLOORS = {'quick': {'byte_comparisons': 20000, 'decode_of_model_bytes': 15000},
           'thorough': {'byte_comparisons': 80000, 'decode_of_model_bytes': 60000}}
@@ -60,6 +60,31 @@ def profile(tier):
     return p
 
 
+ADDITION_COUNTS = [63, 64, 65, 64, 8, 127]
+
+
+def many_additions(gs, n):
+    """Replace the specification of gs by one module with a SEQUENCE and a SET that have exactly n extension additions."""
+    from ..asn.ast import T, Comp, Range, Module, Spec, Assign, Env
+    from ..asn.text import spec_text
+    from ..asn.gen import is_legal
+    rnd = gs.rnd
+    m = Module('M', tags='AUTOMATIC')
+    for name, kind in (('T0', 'SEQUENCE'), ('T1', 'SET')):
+        adds = []
+        for j in range(n):
+            ct = rnd.choice([T('BOOLEAN'), T('INTEGER', rng=Range(0, 7)), T('OCTET STRING', size=Range(1, 2))])      # no empty encodings (known finding)
+            adds.append(Comp('x{}'.format(j), ct, optional=True))
+        m.assigns.append(Assign('type', name, T(kind, comps=[Comp('a', T('BOOLEAN')), Comp('b', T('INTEGER', rng=Range(0, 255)), optional=True)],
+                                                 ext=adds)))
+    gs.spec = Spec([m])
+    gs.text = spec_text(gs.spec)
+    gs.env = Env(gs.spec)
+    gs.legal = is_legal(gs.spec)
+    gs._compiled = {}
+    gs.has_enum = False
+
+
 def run_shard(ctx):
     at = common.asn1tools()
     st = ctx.stats
@@ -78,6 +103,9 @@ def run_shard(ctx):
             break
         key = '{}/{}/{}/{}'.format(ctx.seed, ID, ctx.shard, i)
         gs = GeneratedSpec(key, prof)
+        if i == 0 and ctx.shard < len(ADDITION_COUNTS):
+            many_additions(gs, ADDITION_COUNTS[ctx.shard])       # normally small length boundary (X.691 10.9.3.4)
+            st.inc('modules_with_many_additions')
         st.inc('modules')
         if not gs.legal:
             continue
